@@ -307,6 +307,7 @@ def gen_plan(prop, r, tier, run):
                 op['opts'].pop('tag', None)
             if prop == 'C18':
                 op['cov'] = True
+                op['reextract'] = r.chance(0.3)
                 if op['form'] == 'series':
                     op['form'] = 'list'
                     op.pop('split', None)
@@ -1152,89 +1153,114 @@ def run_cov(ctx, op, kept):
     ctx.states.add('%d/%s/%s' % (obs['attempts'], obs['samples'], len(rex)))
     total = sum(kept.values())
     has_null = any(s is None for s in op['examples'])
-    for dedup in (False, True):
-        res = {}
-        for name, fn in (('coverage', x.coverage),
-                         ('incremental', x.incremental_coverage),
-                         ('full', x.full_incremental_coverage),
-                         ('n_examples', x.n_examples)):
-            try:
-                res[name] = fn(dedup=dedup)
-            except WatchdogTimeout:
-                raise
-            except Exception as e:
-                res[name] = e
-                violation(ctx, op, 'raises', '%s/%s/%s' % (name, reg,
-                                                           exc_tag(e)),
-                          '%s(dedup=%s) raised %r' % (name, dedup, e))
-        ev['dedup=%s' % dedup] = {
-            'coverage': res['coverage'] if isinstance(res['coverage'], list)
-            else repr(res['coverage']),
-            'incremental': (list(res['incremental'].items())
-                            if hasattr(res['incremental'], 'items') else
-                            repr(res['incremental'])),
-            'n_examples': (res['n_examples'] if isinstance(res['n_examples'],
-                                                           int)
-                           else repr(res['n_examples']))}
-        w = (lambda s: 1) if dedup else (lambda s: kept[s])
-        want_total = len(kept) if dedup else total
-        ctx.stats['checks']['coverage_calls'] += 1
-        # coverage
-        cov = res['coverage']
-        if isinstance(cov, list):
-            want = [sum(w(s) for s in kept if matches(c, s)) for c in crs]
-            if list(cov) != want:
-                violation(ctx, op, 'coverage-count', '%s/dedup=%s' % (reg,
-                                                                     dedup),
-                          'coverage(dedup=%s)=%r, independent count=%r for '
-                          '%r over %r' % (dedup, cov, want, rex,
-                                          list(kept.items())[:10]))
-        # incremental
-        inc = res['incremental']
-        if hasattr(inc, 'items'):
-            items = list(inc.items())
-            vals = [v for _, v in items]
-            if any(vals[i] < vals[i + 1] for i in range(len(vals) - 1)):
-                violation(ctx, op, 'incremental-order', '%s/dedup=%s' % (
-                    reg, dedup), 'counts not non-increasing: %r' % (items,))
-            if sum(vals) != want_total:
-                unm = [s for s in kept if not any(matches(c, s)
-                                                  for c in crs)]
-                tag = ('all-matched' if not unm else 'unmatched-' + '+'.join(
-                    sorted({char_tag(s) for s in unm})))
-                violation(ctx, op, 'incremental-sum', '%s/dedup=%s/%s' % (
-                    reg, dedup, tag),
-                    'incremental counts %r sum to %d, examples supplied %d '
-                    '(kept=%r)' % (items, sum(vals), want_total,
-                                   list(kept.items())[:10]))
-            else:
-                # each example credited to exactly one expression, in order
-                seen = set()
-                ok = True
-                for k, v in items:
-                    try:
-                        c = re.compile(k, RE_FLAGS)
-                    except re.error:
-                        ok = False
-                        break
-                    new = [s for s in kept if s not in seen
-                           and c.match(s)]
-                    if sum(w(s) for s in new) != v:
-                        violation(ctx, op, 'incremental-credit',
-                                  '%s/dedup=%s' % (reg, dedup),
-                                  '%r credited %d, newly matches %d: %r'
-                                  % (k, v, sum(w(s) for s in new), items))
-                        break
-                    seen.update(new)
-        # n_examples
-        ne = res['n_examples']
-        if isinstance(ne, int):
-            if has_null:
-                ctx.stats['abstain']['n_examples_with_nulls'] += 1
-            elif ne != want_total:
-                violation(ctx, op, 'n-examples', '%s/dedup=%s' % (reg, dedup),
-                          'n_examples(dedup=%s)=%d, supplied %d'
-                          % (dedup, ne, want_total))
+
+    def check_round(rex, crs, reg, ev):
+        for dedup in (False, True):
+            res = {}
+            for name, fn in (('coverage', x.coverage),
+                             ('incremental', x.incremental_coverage),
+                             ('full', x.full_incremental_coverage),
+                             ('n_examples', x.n_examples)):
+                try:
+                    res[name] = fn(dedup=dedup)
+                except WatchdogTimeout:
+                    raise
+                except Exception as e:
+                    res[name] = e
+                    violation(ctx, op, 'raises', '%s/%s/%s' % (name, reg,
+                                                               exc_tag(e)),
+                              '%s(dedup=%s) raised %r' % (name, dedup, e))
+            ev['dedup=%s' % dedup] = {
+                'coverage': res['coverage'] if isinstance(res['coverage'], list)
+                else repr(res['coverage']),
+                'incremental': (list(res['incremental'].items())
+                                if hasattr(res['incremental'], 'items') else
+                                repr(res['incremental'])),
+                'n_examples': (res['n_examples'] if isinstance(res['n_examples'],
+                                                               int)
+                               else repr(res['n_examples']))}
+            w = (lambda s: 1) if dedup else (lambda s: kept[s])
+            want_total = len(kept) if dedup else total
+            ctx.stats['checks']['coverage_calls'] += 1
+            # coverage
+            cov = res['coverage']
+            if isinstance(cov, list):
+                want = [sum(w(s) for s in kept if matches(c, s)) for c in crs]
+                if list(cov) != want:
+                    violation(ctx, op, 'coverage-count', '%s/dedup=%s' % (reg,
+                                                                         dedup),
+                              'coverage(dedup=%s)=%r, independent count=%r for '
+                              '%r over %r' % (dedup, cov, want, rex,
+                                              list(kept.items())[:10]))
+            # incremental
+            inc = res['incremental']
+            if hasattr(inc, 'items'):
+                items = list(inc.items())
+                vals = [v for _, v in items]
+                if any(vals[i] < vals[i + 1] for i in range(len(vals) - 1)):
+                    violation(ctx, op, 'incremental-order', '%s/dedup=%s' % (
+                        reg, dedup), 'counts not non-increasing: %r' % (items,))
+                if sum(vals) != want_total:
+                    unm = [s for s in kept if not any(matches(c, s)
+                                                      for c in crs)]
+                    tag = ('all-matched' if not unm else 'unmatched-' + '+'.join(
+                        sorted({char_tag(s) for s in unm})))
+                    violation(ctx, op, 'incremental-sum', '%s/dedup=%s/%s' % (
+                        reg, dedup, tag),
+                        'incremental counts %r sum to %d, examples supplied %d '
+                        '(kept=%r)' % (items, sum(vals), want_total,
+                                       list(kept.items())[:10]))
+                else:
+                    # each example credited to exactly one expression, in order
+                    seen = set()
+                    ok = True
+                    for k, v in items:
+                        try:
+                            c = re.compile(k, RE_FLAGS)
+                        except re.error:
+                            ok = False
+                            break
+                        new = [s for s in kept if s not in seen
+                               and c.match(s)]
+                        if sum(w(s) for s in new) != v:
+                            violation(ctx, op, 'incremental-credit',
+                                      '%s/dedup=%s' % (reg, dedup),
+                                      '%r credited %d, newly matches %d: %r'
+                                      % (k, v, sum(w(s) for s in new), items))
+                            break
+                        seen.update(new)
+            # n_examples
+            ne = res['n_examples']
+            if isinstance(ne, int):
+                if has_null:
+                    ctx.stats['abstain']['n_examples_with_nulls'] += 1
+                elif ne != want_total:
+                    violation(ctx, op, 'n-examples', '%s/dedup=%s' % (reg, dedup),
+                              'n_examples(dedup=%s)=%d, supplied %d'
+                              % (dedup, ne, want_total))
+
+    check_round(rex, crs, reg, ev)
+    if op.get('reextract') and outcome == 'ok':
+        # the same extractor is asked to extract again with an option
+        # changed, and then for its figures again
+        try:
+            x.variableLengthFrags = not getattr(x, 'variableLengthFrags',
+                                                False)
+            ctx.simr.begin(op.get('rs'))
+            x.extract()
+            rex2 = list(x.results.rex) if x.results else None
+        except WatchdogTimeout:
+            raise
+        except Exception as e:
+            rex2 = None
+            ctx.stats['abstain']['reextract_raised'] += 1
+        if rex2:
+            crs2 = compile_all(rex2)
+            if not any(isinstance(c, Exception) for c in crs2):
+                ctx.stats['probes']['re_extraction_on_same_object'] += 1
+                ev2 = {}
+                check_round(rex2, crs2, reg + '+reextract', ev2)
+                ev['reextract'] = {'rex': rex2, 'ev': ev2}
     ctx.events.append(ev)
 
 
